@@ -347,6 +347,183 @@ class EmitTranslator(LoopTranslator):
         return super().block(stmts, k)
 
 
+SETATTR_TEXT = ("def __setattr__(self, key: str, value: Any) -> None:\n    if key == 'type':\n"
+                "        self.origin_type = get_type_origin(value)\n    super().__setattr__(key, value)")
+REGISTRY_LOOP_TEXT = "for packer in self._registry:\n    expr = packer(spec)\n    if expr is not None:\n        return expr"
+
+
+class RegistryTranslator(LoopTranslator):
+    """Registry.get up to the handler loop: how the three type keys of a ValueSpec are derived.
+    The spec is a namespace; `spec.type = v` also sets origin_type (ValueSpec.__setattr__, verified textually);
+    get_real_type (substitution of the field's resolved type parameters), get_type_origin and is_annotated are
+    function parameters of the translated definition.  The handler loop itself is not translated: the function
+    returns the prepared spec; that the loop text is the plain first-hit loop is verified."""
+
+    SPEC_ATTRS = {"type", "annotated_type", "origin_type"}
+
+    def expr(self, e: ast.expr):
+        if isinstance(e, ast.Attribute) and isinstance(e.value, ast.Name) and e.value.id == "spec" and e.attr in self.SPEC_ATTRS:
+            t = self.fresh()
+            return [(t, f"k_getattr2 v_spec (KStr {coq_string(e.attr)})")], t
+        return super().expr(e)
+
+    def call(self, e: ast.Call):
+        f = ast.unparse(e.func)
+        if e.keywords:
+            raise Unsupported(f"keyword call {ast.unparse(e)}")
+        if f == "is_annotated" and len(e.args) == 1:
+            pre, a = self.expr(e.args[0])
+            return pre, f"(KBool (f_is_annotated {a}))"
+        if f == "get_type_origin" and len(e.args) == 1:
+            pre, a = self.expr(e.args[0])
+            return pre, f"(f_origin {a})"
+        if f == "spec.builder.get_real_type" and len(e.args) == 2 and ast.unparse(e.args[0]) == "spec.field_ctx.name":
+            pre, a = self.expr(e.args[1])
+            return pre, f"(f_real_type {a})"
+        return super().call(e)
+
+    def block(self, stmts, k):
+        if stmts:
+            s0, rest = stmts[0], stmts[1:]
+            txt = ast.unparse(s0)
+            if txt == "spec.builder.add_type_modules(spec.type)":
+                return self.block(rest, k)           # imports for the generated module only
+            if isinstance(s0, ast.For):
+                if txt != REGISTRY_LOOP_TEXT or len(rest) != 1 or not isinstance(rest[0], ast.Raise):
+                    raise Unsupported("Registry.get: handler loop differs from the first-hit loop: " + txt[:80])
+                return "Ok v_spec"
+            if (isinstance(s0, ast.Assign) and len(s0.targets) == 1 and isinstance(s0.targets[0], ast.Attribute)
+                    and ast.unparse(s0.targets[0]) == "spec.type"):
+                pv, v = self.expr(s0.value)
+                return self.wrap(pv + [("v_spec", f'k_setattr v_spec (KStr "origin_type") (f_origin {v})'),
+                                       ("v_spec", f'k_setattr v_spec (KStr "type") {v}')], self.block(rest, k))
+        return super().block(stmts, k)
+
+    def translate(self, fn: ast.FunctionDef) -> str:
+        body = self.block(list(fn.body), None)
+        return (f"Definition {self.k.coq_name} (f_real_type: kv -> kv) (f_origin: kv -> kv) (f_is_annotated: kv -> bool) "
+                f"(v_spec: kv) : res kv :=\n  {body}.\n")
+
+
+CONST_SLICES = {(-1, 0, -1): "k_slice_rev_tail", (1, None, None): "k_slice_tail"}
+
+
+class FieldsTranslator(LoopTranslator):
+    """CodeBuilder.dataclass_fields: which Field object (hence which field options) a class uses for a name.
+    Adds: `{}`; `d[k] = v`; `d.pop(k, None)`; `x.values()` as an iterable; slices with constant bounds out of
+    CONST_SLICES (each a named primitive, validated against CPython by the harness); loop-local variables whose
+    first mention in the loop body is a top-level assignment; is_dataclass / isinstance(x, Field)."""
+
+    def expr(self, e: ast.expr):
+        key = ast.unparse(e)
+        if key in self.k.abstr:
+            return [], self.k.abstr[key]
+        if isinstance(e, ast.Dict) and not e.keys:
+            return [], "(KDict [])"
+        if isinstance(e, ast.Attribute) and e.attr == "name" and isinstance(e.value, ast.Name) and e.value.id in self.locals:
+            t = self.fresh()
+            return [(t, f'k_getattr2 v_{e.value.id} (KStr "name")')], t
+        if isinstance(e, ast.Subscript) and isinstance(e.slice, ast.Slice):
+            def const(x):
+                if x is None:
+                    return None
+                if isinstance(x, ast.Constant) and isinstance(x.value, int):
+                    return x.value
+                if isinstance(x, ast.UnaryOp) and isinstance(x.op, ast.USub) and isinstance(x.operand, ast.Constant):
+                    return -x.operand.value
+                raise Unsupported("non-constant slice bound")
+            b = (const(e.slice.lower), const(e.slice.upper), const(e.slice.step))
+            if b not in CONST_SLICES:
+                raise Unsupported(f"slice {b}")
+            pre, a = self.expr(e.value)
+            t = self.fresh()
+            return pre + [(t, f"{CONST_SLICES[b]} {a}")], t
+        return super().expr(e)
+
+    def call(self, e: ast.Call):
+        f = ast.unparse(e.func)
+        if f == "is_dataclass" and len(e.args) == 1 and not e.keywords:
+            pre, a = self.expr(e.args[0])
+            return pre, f"(KBool (k_is_dataclass {a}))"
+        if f == "isinstance" and len(e.args) == 2 and ast.unparse(e.args[1]) == "Field":
+            pre, a = self.expr(e.args[0])
+            return pre, f"(KBool (k_is_field {a}))"
+        if f == "getattr" and len(e.args) == 2 and not e.keywords:
+            p1, a = self.expr(e.args[0]); p2, b = self.expr(e.args[1])
+            t = self.fresh()
+            return p1 + p2 + [(t, f"k_getattr2 {a} {b}")], t
+        if isinstance(e.func, ast.Attribute) and e.func.attr == "values" and not e.args and not e.keywords:
+            pre, a = self.expr(e.func.value)
+            t = self.fresh()
+            return pre + [(t, f"k_dict_values {a}")], t
+        return super().call(e)
+
+    @staticmethod
+    def mutated_by_method(node):
+        if (isinstance(node, ast.Call) and isinstance(node.func, ast.Attribute)
+                and node.func.attr in ("insert", "append", "extend", "pop") and isinstance(node.func.value, ast.Name)):
+            return node.func.value.id
+        return None
+
+    def assigned(self, stmts):
+        out = super().assigned(stmts)
+        for s in stmts:
+            for node in ast.walk(s):
+                if isinstance(node, ast.Assign):
+                    for t in node.targets:
+                        if isinstance(t, ast.Subscript) and isinstance(t.value, ast.Name) and t.value.id not in out:
+                            out.append(t.value.id)
+        return out
+
+    def block(self, stmts, k):
+        if stmts:
+            s0, rest = stmts[0], stmts[1:]
+            if (isinstance(s0, ast.Assign) and len(s0.targets) == 1 and isinstance(s0.targets[0], ast.Subscript)
+                    and isinstance(s0.targets[0].value, ast.Name) and not isinstance(s0.targets[0].slice, ast.Slice)):
+                nm = s0.targets[0].value.id
+                if nm not in self.locals:
+                    raise Unsupported(f"free name {nm}")
+                pk, kk = self.expr(s0.targets[0].slice)
+                pv, v = self.expr(s0.value)
+                return self.wrap(pk + pv + [(f"v_{nm}", f"k_dict_set v_{nm} {kk} {v}")], self.block(rest, k))
+            if (isinstance(s0, ast.Expr) and isinstance(s0.value, ast.Call) and isinstance(s0.value.func, ast.Attribute)
+                    and s0.value.func.attr == "pop"):
+                c = s0.value
+                if len(c.args) != 2 or c.keywords or ast.unparse(c.args[1]) != "None" or not isinstance(c.func.value, ast.Name):
+                    raise Unsupported(f"pop call {ast.unparse(c)}")
+                nm = c.func.value.id
+                if nm not in self.locals:
+                    raise Unsupported(f"free name {nm}")
+                pk, kk = self.expr(c.args[0])
+                return self.wrap(pk + [(f"v_{nm}", f"k_dict_pop v_{nm} {kk}")], self.block(rest, k))
+        return super().block(stmts, k)
+
+    def for_loop(self, s: ast.For, rest, k):
+        # loop-local variables: first mention in the body is a top-level `w = ...` (fresh in every iteration)
+        before = set(self.locals)
+        inner_targets = {n.target.id for n in ast.walk(s) if isinstance(n, ast.For) and isinstance(n.target, ast.Name)}
+        fresh_locals = []
+        for w in self.assigned(s.body):
+            if w in before or w in inner_targets:
+                continue
+            first = next((st for st in s.body if any(isinstance(n, ast.Name) and n.id == w for n in ast.walk(st))), None)
+            ok = (isinstance(first, ast.Assign) and len(first.targets) == 1 and isinstance(first.targets[0], ast.Name)
+                  and first.targets[0].id == w
+                  and not any(isinstance(n, ast.Name) and n.id == w for n in ast.walk(first.value)))
+            if not ok:
+                raise Unsupported(f"variable {w} first assigned inside a loop, not by a leading assignment")
+            fresh_locals.append(w)
+        if not fresh_locals:
+            return super().for_loop(s, rest, k)
+        # hide them from the state computation of the generic loop translation
+        saved_assigned = self.assigned
+        self.assigned = lambda stmts, _f=saved_assigned: [w for w in _f(stmts) if w not in fresh_locals]
+        try:
+            return super().for_loop(s, rest, k)
+        finally:
+            self.assigned = saved_assigned
+
+
 # ----------------------------------------------------------------------------------------
 
 def _check_signature(fn: ast.FunctionDef, names: list[str], decorators: list[str]):
@@ -451,4 +628,33 @@ def gen() -> str:
         tr.tail = tail
         tr.method_var = mvar
         out += tr.translate(fn) + "\n"
+
+    # 7. Registry.get: derivation of the keys (annotated_type, type, origin_type) before the handlers run
+    csrc = os.path.join(REPO, "mashumaro/core/meta/types/common.py")
+    cmod = ast.parse(open(csrc).read())
+    sa = find_function(cmod, "ValueSpec.__setattr__")
+    if ast.unparse(sa) != SETATTR_TEXT:
+        raise Unsupported("ValueSpec.__setattr__ differs: " + ast.unparse(sa)[:120])
+    fn = find_function(cmod, "Registry.get")
+    _check_signature(fn, ["self", "spec"], [])
+    k = Kernel(func="Registry.get", coq_name="registry_prepare", params=["v_spec"], abstr={})
+    tr = RegistryTranslator(k, cmod)
+    tr.locals.add("spec")
+    out += tr.translate(fn) + "\n"
+
+    # 8. CodeBuilder.dataclass_fields: the Field (and so the field options) used for each name
+    names = set()
+    for n in bmod.body:
+        if isinstance(n, ast.ImportFrom) and n.module == "dataclasses":
+            names |= {a.name for a in n.names if a.asname is None}
+    if not names >= {"_FIELDS", "MISSING", "Field", "is_dataclass"}:
+        raise Unsupported("builder.py: _FIELDS/MISSING/Field/is_dataclass are not the dataclasses ones")
+    fn = find_function(bmod, "CodeBuilder.dataclass_fields")
+    _check_signature(fn, ["self"], ["property", "lru_cache()"])
+    k = Kernel(func="CodeBuilder.dataclass_fields", coq_name="dataclass_fields",
+               params=["a_mro", "a_own_names", "a_namespace"],
+               abstr={"self.cls.__mro__": "a_mro", "self.__get_field_types(recursive=False)": "a_own_names",
+                      "self.namespace": "a_namespace", "_FIELDS": '(KStr "__dataclass_fields__")', "MISSING": "KMissing"})
+    tr = FieldsTranslator(k, bmod)
+    out += tr.translate(fn) + "\n"
     return out
